@@ -1,8 +1,50 @@
-//! Property check C10 (see /verif/DESIGN.md §4).
-use mc::{Level, Report};
+//! Property check C10 — what was acknowledged survives any crash; what was not is invisible.
+mod probe;
+mod store_layer;
+mod util;
+
+use mc::{json, Level, Report};
 
 fn main() {
-    let r = Report::new("C10", Level::Exploration);
-    r.machinery_error("check not implemented yet");
+    let r = Report::new("C10", Level::FaultEnumeration);
+    mc::quiet_panics();
+    walkit::syncspy::init();
+    if let Err(e) = walkit::syncspy::selftest(&mc::scratch_root()) {
+        r.machinery_error(&e);
+        r.finish();
+    }
+    r.rule("a case is one crash image: (workload, byte length L of the segment, coexisting ledger/manifest/temp-file versions); \
+            distinct_nontrivial counts images whose L is not a transaction boundary (a torn record or an uncommitted tail must be discarded)");
+    r.assume("crash model = pure prefix truncation of the single active segment plus the temp+rename stages of ledger and manifest; \
+              unsynced frame bytes are assumed to reach the disk in order (no block reordering)");
+    r.assume("fsync coverage is observed by a link-time interposer of fsync/fdatasync in the harness binary (raw syscall forwarded)");
+
+    if let Some(path) = r.replay.clone() {
+        let txt = std::fs::read_to_string(&path).unwrap_or_default();
+        let v: mc::Value = serde_json::from_str(&txt).unwrap_or(json!(null));
+        let case = v["detail"]["case"].clone();
+        let mut st = util::Stats::default();
+        let res = match case["layer"].as_str() {
+            Some("store") => store_layer::replay(&case, &mut st),
+            other => Err(format!("replay of layer {other:?} not supported")),
+        };
+        if let Err(e) = res {
+            r.machinery_error(&format!("replay: {e}"));
+        }
+        for v in &st.viols {
+            println!("replay: {} {}", v.sig, v.detail);
+        }
+        r.sample(json!({"replayed": case}));
+        r.nontrivial(b"replay-a");
+        r.nontrivial(b"replay-b");
+        st.flush(&r, "replay.");
+        r.finish();
+    }
+
+    if std::env::args().any(|a| a == "--probe") {
+        probe::run();
+        std::process::exit(0);
+    }
+    let _logs = store_layer::run(&r);
     r.finish();
 }
